@@ -86,10 +86,13 @@ func (m *Mutex) Unlock() {
 type RWMutex struct {
 	w       bool
 	readers int
+	pending int // writers waiting in Lock: like the real type, a pending writer holds back NEW readers
 }
 
 func (m *RWMutex) Lock() {
+	m.pending++
 	zzvrt.Point(zzvrt.KMutex, func() bool { return !m.w && m.readers == 0 })
+	m.pending--
 	m.w = true
 }
 func (m *RWMutex) Unlock() {
@@ -100,7 +103,9 @@ func (m *RWMutex) Unlock() {
 	m.w = false
 }
 func (m *RWMutex) RLock() {
-	zzvrt.Point(zzvrt.KMutex, func() bool { return !m.w })
+	// (a reader that arrives while a writer waits queues behind it: a goroutine that takes the read lock twice
+	// deadlocks when a writer arrives in between - as it does on the real type)
+	zzvrt.Point(zzvrt.KMutex, func() bool { return !m.w && m.pending == 0 })
 	m.readers++
 }
 func (m *RWMutex) RUnlock() {
@@ -120,7 +125,7 @@ func (m *RWMutex) TryLock() bool {
 }
 func (m *RWMutex) TryRLock() bool {
 	zzvrt.Point(zzvrt.KMutex, nil)
-	if m.w {
+	if m.w || m.pending > 0 {
 		return false
 	}
 	m.readers++
